@@ -6,7 +6,7 @@ use serde_json::{json, Value};
 use std::io::Write;
 use vh::*;
 
-fn run_json(r: &Run) -> Value {
+pub fn run_json(r: &Run) -> Value {
     json!({"evs": r.evs.iter().map(|e| e.json_s()).collect::<Vec<_>>(),
            "err": r.err.iter().map(|e| json!({"msg": e.msg, "at": e.at})).collect::<Vec<_>>()})
 }
